@@ -873,6 +873,7 @@ def _b_int(i, a, k):
 def _b_float(i, a, k):
     if not a:
         return Fraction(0)
+    i.ctx.trace.append(('float',))
     return ops.to_float(a[0])
 
 
@@ -1471,10 +1472,13 @@ def _decimal(i, a, k):
     used('decimal.Decimal (A-2: exact decimal arithmetic, identity on the real model)')
     v = a[0]
     if isinstance(v, Opaque) and v.what.startswith('strof:'):
+        i.ctx.trace.append(('Decimal', 'str'))
         return v.payload
     if isinstance(v, str):
+        i.ctx.trace.append(('Decimal', 'literal'))
         return Fraction(v)
     if is_conc_num(v) or isinstance(v, Sym):
+        i.ctx.trace.append(('Decimal', 'raw-float'))      # binary expansion of the float, not its repr
         return ops.to_float(v)
     raise OutOfSubset('Decimal of ' + kind_of(v))
 
